@@ -1,11 +1,12 @@
 SPECIFICATION MCSpec
 CONSTANTS
-  Geoms <- GeomsQ
+  Geoms <- GSeq
   Sides = {"host", "fw"}
   Facet = "text"
   MaxOps = 0
   Extra = 2
-  Alphabet <- AB
+  Alphabet <- A1
+  Marked = FALSE
 INVARIANT NeverOffRow
 INVARIANT NeverBeyondWidth
 INVARIANT OtherRowsUntouched
@@ -14,6 +15,5 @@ INVARIANT CanonicalIsAllowed
 INVARIANT ProgressMonotoneSaturating
 INVARIANT BacklightLaw
 INVARIANT GlyphRows5bit
-INVARIANT FillLaw
 PROPERTY FailedCallLeavesState
 CHECK_DEADLOCK FALSE
